@@ -30,6 +30,7 @@ EXPLANATION = (
     "Later rounds added: "
     "(INVALIDATE) a function that clears a memo lying below a cache table clears the "
     "table too. "
+    'Round 7: (COREKEY, shared with C02) the per-tree memo of compiled contractors is keyed by every option. '
 )
 ASSUMPTIONS = (
     "allow-listed hidden inputs select among value-equivalent executors/optimizers: "
